@@ -35,6 +35,7 @@ func (p *service) processor() {
 			log.Errorf("(%s) Recovering from panic: %v", p.cid(), r)
 		}
 
+		verifLife("prc.exit", p)
 		p.wgStopped.Done()
 		p.stop()
 	}()
@@ -167,6 +168,7 @@ func (p *service) processIncoming(msg message.Message) error {
 	case *message.DisconnectMessage:
 		// For DISCONNECT message, we should quit
 		p.sess.Cmsg.SetWillFlag(false)
+		verifLife("disc", p)
 		return errDisconnect
 
 	default:
